@@ -420,7 +420,7 @@ func e2eDecodeTest(t *testing.T, prop, proto string) {
 				c.Ambient = map[string]string{}
 			}
 			if c.Ambient["~elements~"] == "" {
-				c.Ambient["~elements~"] = []string{"copy", "link"}[i%2]
+				c.Ambient["~elements~"] = []string{"copy", "link", "late"}[i%3]
 			}
 		}
 		v, sig, err := runE2EPipe(prop, &c)
